@@ -736,22 +736,22 @@ def expr_pde_cases(draw, jit=False):
     vector_ops = bool(used_ops & {"divergence", "vector_laplace"}) or vector_mode
     allow_expr = not vector_ops and not jit
     bc = draw(bc_specs(spec, allow_expr=allow_expr))
-    style = draw(st.sampled_from(["explicit", "none", "op-wild", "var-wild"]))
+    style = draw(st.sampled_from(["explicit", "op-wild", "var-wild", "none"]))
     bc_ops = {}
     opnames = sorted(used_ops - {"dot", "integral"})
     names = list(rhs)
     if style == "explicit":
         for n in names:
             for o in sorted(ops_in(rhs[n]) - {"dot", "integral"}):
-                if draw(st.booleans()):
+                if draw(st.sampled_from([True, True, False])):
                     bc_ops[f"{n}:{o}"] = draw(bc_specs(spec, allow_expr=allow_expr))
     elif style == "op-wild":
         for o in opnames:
-            if draw(st.booleans()):
+            if draw(st.sampled_from([True, True, False])):
                 bc_ops[f"*:{o}"] = draw(bc_specs(spec, allow_expr=allow_expr))
     elif style == "var-wild":
         for n in names:
-            if draw(st.booleans()):
+            if draw(st.sampled_from([True, True, False])):
                 bc_ops[f"{n}:*"] = draw(bc_specs(spec, allow_expr=allow_expr))
     # NB: the order of the equations matters (it is the order of the fields in the state) and JSON
     # objects are written with sorted keys -> list of [variable, AST] pairs
@@ -925,3 +925,6 @@ SUBCHECKS = [
              check=check_expr_numpy_vs_compiled_jit, mode="jit",
              budget={"quick": 6, "thorough": 100}, shards={"quick": 2, "thorough": 4}, rule=NT_EXPR),
 ]
+
+for _s in SUBCHECKS:
+    _s.time_limit = {"quick": 110, "thorough": 1500}
